@@ -15,14 +15,15 @@ import collections, os, shutil, tempfile
 from fractions import Fraction as F
 import common, translate, lpdump, gencheck, e1
 
-PROOFS = {"encode_paths": "EncPathsSpec.v", "encode_kfd": "EncKfdSpec.v", "encode_kpc": "EncKpcSpec.v"}
+PROOFS = {"encode_paths": "EncPathsSpec.v", "encode_kfd": "EncKfdSpec.v", "encode_kpc": "EncKpcSpec.v", "encode_kfdw": "EncKfdwSpec.v"}
 ORDER = ["binprod", "encode_paths", "encode_kfd", "encode_kpc"]
 FAMN = {"fEdge": 0, "fPi": 1, "fW": 2, "fR": 6, "fPos": 10, "fLen": 11}
-N_OUT = {"encode_paths": 7, "encode_kfd": 2, "encode_kpc": 0}            # number of assigned attributes after (outcome, cols, rows)
+N_OUT = {"encode_paths": 7, "encode_kfd": 2, "encode_kpc": 0, "encode_kfdw": 0}            # number of assigned attributes after (outcome, cols, rows)
 STATEMENT = {
     "encode_paths": "_encode_paths adds exactly the edge / constraint variables and the rows 10a (one per layer), 10c (per layer and inner node), 7a (per layer and constraint) and 7b (per constraint) of the documented formulation",
     "encode_kfd": "_encode_flow_decomposition adds exactly the pi / w variables, for every non-ignored edge the four product rows per layer and the row sum_i pi(u,v,i) == flow(u,v)",
     "encode_kpc": "_encode_path_cover adds exactly one row sum_i x(u,v,i) >= 1 per non-ignored edge",
+    "encode_kfdw": "_encode_flow_decomposition_with_given_weights adds exactly, per non-ignored edge, the row sum_i w_i x(u,v,i) == flow(u,v), the row 'at most original_k source edges used', and minimises the number of source edges used",
 }
 cN = gencheck.cN; cL = gencheck.cL; cE = gencheck.cE; cQ = gencheck.cQ
 
@@ -58,6 +59,13 @@ def fn_call(name, m, ids):
         args = [G, cZ(m.k), cK3(ids, m.edge_indexes), cL([cZ(i) for i in m.path_indexes]), cK3(ids, m.edge_indexes), cQ(m.w_max),
                 cL([cE((ids[u], ids[v])) for (u, v) in m.edges_to_ignore]), cK3(ids, list(m.edges_set_to_zero)), cK3(ids, list(m.edges_set_to_one)),
                 flows, "true" if m.is_solved() else "false", "true" if m.weight_type == int else "false"]
+    elif name == "encode_kfdw":
+        flows = cL(["(%s, %s)" % (cE((ids[u], ids[v])), cQ(d[m.flow_attr])) for u, v, d in st.edges(data=True) if m.flow_attr in d])
+        oo = m.optimization_options
+        args = [G, cZ(m.k), cK3(ids, m.edge_indexes), cL([cE((ids[u], ids[v])) for (u, v) in m.edges_to_ignore]),
+                cL([cQ(w) for w in m.solution_weights_superset]), cZ(m.original_k), flows, "true" if m.is_solved() else "false"] + \
+               ["true" if oo.get(o, False) else "false" for o in ("optimize_with_safe_paths", "optimize_with_safe_sequences", "optimize_with_safe_zero_edges", "optimize_with_flow_safe_paths")]
+        return "(let r := fn %s in enc_emitted (fst (fst r), snd (fst r)) ++ [enc_obj (snd r)])" % " ".join(args)      # (outcome, cols, rows, objective)
     else:
         args = [G, cZ(m.k), cons, cQ(m.subpath_constraints_coverage), cL([cE((ids[u], ids[v])) for (u, v) in m.edges_to_ignore]), cK3(ids, m.edge_indexes)]
     return "enc_emitted (%s(fn %s)%s)" % (drop, " ".join(args), close)
@@ -95,6 +103,10 @@ def real(name, m, ids):
             m._encode_paths(); return added(empty, dump(m, ids))
         m._encode_paths(); before = dump(m, ids)
         if name == "encode_kfd": m._encode_flow_decomposition()
+        elif name == "encode_kfdw":
+            m._encode_flow_decomposition_with_given_weights()
+            after = dump(m, ids); r = added(before, after); r["obj"] = after["obj"]; r["sense"] = after["sense"]
+            return r
         else: m._encode_path_cover()
         return added(before, dump(m, ids))
     except Exception as e:
@@ -141,6 +153,14 @@ def spec(name, m, ids):
                 x, w, p = E(u, v, i), (2, i), (1, ids[u], ids[v], i)
                 rows += [nrow([(p, 1), (x, -W)], "<=", 0), nrow([(p, 1)], ">=", 0), nrow([(p, 1), (w, -1)], "<=", 0), nrow([(p, 1), (w, -1), (x, -W)], ">=", -W)]
             rows.append(nrow([((1, ids[u], ids[v], i), 1) for i in range(k)], "==", d[m.flow_attr]))
+    elif name == "encode_kfdw":
+        ws = m.solution_weights_superset
+        for u, v, d in st.edges(data=True):
+            if (u, v) in m.edges_to_ignore: continue
+            rows.append(nrow([(E(u, v, i), ws[i]) for i in range(k)], "==", d[m.flow_attr]))
+        src = [(E(s, v, i), 1) for v in st.successors(s) for i in range(k)]
+        rows.append(nrow(src, "<=", m.original_k))
+        return {"exc": None, "cols": {}, "rows": sorted(rows, key=repr), "obj": {kk: F(c) for kk, c in src}, "sense": "min"}
     else:
         for u, v in st.edges():
             if (u, v) in m.edges_to_ignore: continue
@@ -169,6 +189,26 @@ def kfd_models(ctx, n, stream):
     return out
 
 
+def kfdw_models(ctx, n, stream):
+    """kFlowDecomp with given weights (solution_weights_superset): the route the constructor takes then"""
+    import flowpaths as fp
+    from engines import c02
+    out = []; i = 0
+    while len(out) < n and i < 20 * n:
+        rng = ctx.rng(stream, i); i += 1
+        args, paths, ws = c02.make_kfd(rng)
+        args = dict(args)
+        given = sorted(set(ws)) + ([rng.choice([1, 2, 5])] if rng.random() < 0.5 else [])
+        args["solution_weights_superset"] = [int(x) if args["weight_type"] == int else float(x) for x in given]
+        args["optimization_options"] = {"optimize_with_greedy": False}
+        try:
+            m = fp.kFlowDecomp(**args)
+        except Exception:
+            continue
+        out.append((m, c02.describe(args)))
+    return out
+
+
 def kpc_models(ctx, n, stream):
     import zoo
     out = []
@@ -185,14 +225,15 @@ def kpc_models(ctx, n, stream):
 
 # ------------------------------------------------------------------------------------------ driver
 def run_generated_kfd(ctx):
-    run(ctx, ["encode_paths", "encode_kfd"], kfd_models, "genenc-kfd")
+    run(ctx, [(["encode_paths", "encode_kfd"], kfd_models, "genenc-kfd", 36), (["encode_kfdw"], kfdw_models, "genenc-kfdw", 16)])
 
 
 def run_generated_kpc(ctx):
-    run(ctx, ["encode_kpc"], kpc_models, "genenc-kpc")
+    run(ctx, [(["encode_kpc"], kpc_models, "genenc-kpc", 36)])
 
 
-def run(ctx, names, models, stream):
+def run(ctx, groups):
+    names = [n for g in groups for n in g[0]]
     base = os.path.join(common.OUT, "work", "gen"); os.makedirs(base, exist_ok=True)
     build = tempfile.mkdtemp(prefix="enc_", dir=base)
     try:
@@ -212,18 +253,21 @@ def run(ctx, names, models, stream):
         # the transfer theorems (EncTransfer.v) speak about all of them
         okb, pb = gencheck.translate_and_prove(ctx, "binprod", build, "BinProdSpec.v", compiled)
         if pb: ctx.report("generated-model tie of binprod (called by the flow encoder) no longer checks: " + pb[0][:300], {"generated_model": "binprod", "broken": pb}, concrete=False)
-        for name in ["encode_paths", "encode_kfd", "encode_kpc"]:
+        for name in ["encode_paths", "encode_kfd", "encode_kpc", "encode_kfdw"]:
+            if not os.path.exists(os.path.join(common.COQ, "gen_proofs", PROOFS[name])): continue
             results[name] = gencheck.translate_and_prove(ctx, name, build, PROOFS[name], compiled) if extra_ok else (False, ["EncCommon.v does not compile"])
         tproblems = []
         if all(results[n][0] and not results[n][1] for n in results) and okb and not pb:
             if not prove_extra(ctx, build, "EncTransfer.v", tproblems):
                 ctx.report("the transfer theorems (gen_kfd_sound, gen_kfd_feasible_iff_cons, gen_kpc_feasible_iff) no longer check: " + "; ".join(tproblems)[:400],
                            {"generated_model": "transfer", "broken": tproblems}, concrete=False)
-        ms = models(ctx, ctx.budget(36, 400), stream)
+        cache = {}
         for name in results:
             try:
                 if name in names:
-                    one(ctx, name, build, results[name], ms, models, stream)
+                    names_, models, stream, nq = next(g for g in groups if name in g[0])
+                    if stream not in cache: cache[stream] = models(ctx, ctx.budget(nq, 10 * nq), stream)
+                    one(ctx, name, build, results[name], cache[stream], models, stream)
                 elif results[name][1]:
                     ctx.report("generated-model tie of %s no longer checks (%s)" % (name, results[name][1][0][:300]), {"generated_model": name, "broken": results[name][1]}, concrete=False)
             except Exception as e:
@@ -231,6 +275,21 @@ def run(ctx, names, models, stream):
                 ctx.report("generated-model check of %s crashed: %r" % (name, e), {"generated_model": name, "traceback": traceback.format_exc()}, concrete=False)
     finally:
         shutil.rmtree(build, ignore_errors=True)
+
+
+def decode(name, enc):
+    import gencheck12
+    if name != "encode_kfdw": return gencheck12.decode(enc)
+    r = gencheck12.decode(enc[:-1]); o = enc[-1]
+    r["obj"] = {}; r["sense"] = "min"
+    if o[0] != 0:
+        r["sense"] = "max" if o[0] == 2 else "min"
+        n = o[3]; i = 4
+        for _ in range(n):
+            fam, ln = o[i], o[i + 1]; key = (fam,) + tuple(o[i + 2:i + 2 + ln]); i += 2 + ln
+            r["obj"][key] = r["obj"].get(key, F(0)) + F(o[i], o[i + 1]); i += 2
+        r["obj"] = {kk: c for kk, c in r["obj"].items() if c != 0}
+    return r
 
 
 def prove_extra(ctx, build, fname, problems):
@@ -255,6 +314,8 @@ def prove_extra(ctx, build, fname, problems):
 
 def differs(got, want):
     d = [] if got["exc"] == want["exc"] else ["outcome: %s, required %s" % (got["exc"], want["exc"])]
+    if "obj" in want or "obj" in got:
+        return d + lpdump.diff(dict({"obj": {}, "sense": "min"}, **got), dict({"obj": {}, "sense": "min"}, **want), what=("cols", "rows", "obj", "sense"))
     return d + lpdump.diff(got, want, what=("cols", "rows"))
 
 
@@ -283,7 +344,7 @@ def one(ctx, name, build, proved, ms, models, stream):
             import gencheck12
             bad = []
             for (m, desc), enc, r in zip(ms, res, reals):
-                d = differs(r, gencheck12.decode(enc))
+                d = differs(r, decode(name, enc))
                 ctx.count("generated_model", "rows_compared", len(r["rows"])); ctx.count("generated_model", "cols_compared", len(r["cols"]))
                 if d: bad.append((desc, d))
             ctx.count("generated_model", "correspondence_cases", len(ms))
@@ -314,7 +375,7 @@ def replay(ctx, body):
     name = body["generated_model"]
     if name not in STATEMENT:
         print("nothing to replay for", name, "; broken:", body.get("broken")); return False
-    models, stream = (kpc_models, "genenc-kpc") if name == "encode_kpc" else (kfd_models, "genenc-kfd")
+    models, stream = (kpc_models, "genenc-kpc") if name == "encode_kpc" else (kfdw_models, "genenc-kfdw") if name == "encode_kfdw" else (kfd_models, "genenc-kfd")
     for sfx in ("", "-search"):
         for m, desc in models(ctx, 36 if not sfx else 150, stream + sfx):
             ids = e1.ids_of(m.G); want = spec(name, m, ids)
